@@ -264,6 +264,9 @@ Definition run (name : string) (a : sx) : sx :=
   else if is "c17.raw" then run_raw a
   else if is "c17.parseraw" then run_parse_raw a
   else if is "c17.parseacc" then run_parse_account a
+  else if is "c17.mustparse" then run_parse_account a
+  else if is "c17.rootparse" then run_parse_account a
+  else if is "c17.rootmust" then run_parse_account a
   else if is "c17.tl" then run_tl a
   else if is "c17.untl" then run_untl a
   else if is "c17.shard.parse" then run_shard_parse a
